@@ -54,6 +54,11 @@ func (s *Store) RHP4DebitAccount(account proto4.Account, usage proto4.Usage) err
 		} else if err := distributeRHP4AccountUsage(tx, dbID, usage); err != nil {
 			return fmt.Errorf("failed to update contract funding: %w", err)
 		}
+
+		// update balance metric
+		if err := incrementCurrencyStat(tx, metricAccountBalance, total, true, time.Now()); err != nil {
+			return fmt.Errorf("failed to increment balance metric: %w", err)
+		}
 		return nil
 	})
 }
